@@ -35,7 +35,10 @@ func (en *Engine) WorkSharing(n, q int, pinLanes []int, k, extra int) {
 	r := en.New(fam, name, n, q)
 	defer en.Finish(fam, r)
 	r.Start(longTimeout)
-	for _, l := range pinLanes {
+	for i, l := range pinLanes {
+		// every idle worker parked in its blocking select: the queue goroutine's first (non-blocking) offer
+		// to its own worker succeeds, so the task pushed to lane l pins worker l
+		WaitUntil(100*time.Millisecond, func() bool { return workersBlockedInSelect() == n-i })
 		t := r.NewTask(true, 0, false)
 		if res := r.Push(t, l); res != "ok" {
 			r.Violation("push-of-pinning-task failed: %s", res)
@@ -635,4 +638,195 @@ func (en *Engine) PushAfterCancelRoom(n, q, variant int) {
 		r.Violation("push-after-cancel: PendingTask grew from %d to %d by pushes made after the context ended", before, after)
 	}
 	en.Shutdown(r, true)
+}
+
+// SharingSubsets: for every target lane L and every set P of pinned workers with L in P and |P| < n,
+// everything is pushed to lane L and must start on a worker outside P (laneSize >= 3 distinguishes a
+// shared channel from "own worker or ring neighbour").
+func (en *Engine) SharingSubsets(n, q int) {
+	for L := 0; L < n; L++ {
+		for mask := 0; mask < 1<<n; mask++ {
+			if mask&(1<<L) == 0 {
+				continue
+			}
+			var P []int
+			for j := 0; j < n; j++ {
+				if mask&(1<<j) != 0 {
+					P = append(P, j)
+				}
+			}
+			if len(P) >= n {
+				continue
+			}
+			en.WorkSharing(n, q, P, L, q+2)
+		}
+	}
+}
+
+// ---------------------------------------------------------------- C14: panics of different dynamic types one after the other on ONE lane
+
+// PanicSequence: on one lane a string panic, then an error, an int, a struct (then a slice and a typed
+// nil pointer), then a normal task. The normal task must start; LastPanic must be one of the raised values
+// after each step (monitor) - with one lane and the tasks run one after the other it is the latest one.
+func (en *Engine) PanicSequence(n, q int) {
+	const fam = "panicseq"
+	name := sname(fam, n, q)
+	if en.Skip(fam, name) {
+		return
+	}
+	r := en.New(fam, name, n, q)
+	defer en.Finish(fam, r)
+	r.Start(longTimeout)
+	lane := en.Rng.Intn(n)
+	for _, kind := range []int{PVString, PVError, PVInt, PVStruct_, PVSlice, PVNilPtr} {
+		t := r.NewPanicTask(kind, false)
+		if res := r.Push(t, lane); res != "ok" {
+			r.Violation("progress: push returned %s", res)
+			break
+		}
+		if !WaitUntil(LiveBound, func() bool { return r.Finished(t) }) {
+			r.Violation("panic-contained: task %d pushed after %d panics was not started within %v", t.ID, t.pv-1, LiveBound)
+			en.Shutdown(r, false)
+			return
+		}
+		// the store of the panic value follows F: poll until it shows (n=1: it must become exactly this value)
+		want := t.pv
+		if !WaitUntil(LiveBound, func() bool { _, lp := r.Status(); return lp == want || (n > 1 && lp > 0) }) {
+			r.Violation("lastpanic: after task %d panicked with value %d (kind %d) LastPanic never showed it", t.ID, want, kind)
+		}
+	}
+	normal := r.NewTask(false, 0, false)
+	r.Push(normal, lane)
+	if !WaitUntil(LiveBound, func() bool { return r.Finished(normal) }) {
+		r.Violation("panic-contained: a normal task pushed after panics of different dynamic types was not started within %v", LiveBound)
+	}
+	r.Status()
+	en.Shutdown(r, false)
+}
+
+// ---------------------------------------------------------------- C14: pending count with a producer blocked in PushTask
+
+// PendingBlockedProducer: every worker pinned, every lane full (1 held by the queue goroutine + queueSize
+// buffered), then one more PushTask per lane that blocks in its select (seen through the gate).
+// PendingTask must stay at the number of ACCEPTED tasks that have not started: the blocked pushes have
+// not been accepted.
+func (en *Engine) PendingBlockedProducer(n, q int) {
+	const fam = "pendingblocked"
+	name := sname(fam, n, q)
+	if en.Skip(fam, name) {
+		return
+	}
+	r := en.New(fam, name, n, q)
+	defer en.Finish(fam, r)
+	r.Start(longTimeout)
+	if _, ok := en.PinAll(r, func(i int) int { return i % n }); !ok {
+		en.Shutdown(r, false)
+		return
+	}
+	want := n * (q + 1)
+	for l := 0; l < n; l++ {
+		for j := 0; j <= q; j++ {
+			if res := r.Push(r.NewTask(false, 0, false), l); res != "ok" {
+				r.Violation("progress: push into lane %d with room returned %s", l, res)
+			}
+		}
+	}
+	if last, ok := r.PendingSettles(want, LiveBound); !ok {
+		r.Violation("pending-exact: workers pinned, %d accepted tasks not started, PendingTask=%d", want, last)
+	}
+	h0 := r.G.Hits()["P1"]
+	var blocked []*PushCall
+	for l := 0; l < n; l++ {
+		blocked = append(blocked, r.PushAsync(r.NewTask(false, 0, false), l))
+	}
+	entered := WaitUntil(250*time.Millisecond, func() bool { return r.G.Hits()["P1"] >= h0+n })
+	if entered {
+		en.reached["pendingblocked/producers-in-select"]++
+	} else {
+		en.unreached["pendingblocked/producers-in-select"]++
+	}
+	time.Sleep(300 * time.Microsecond)
+	for i := 0; i < 4; i++ {
+		p, _ := r.Status()
+		still := true
+		for _, c := range blocked {
+			if c.Done() {
+				still = false
+			}
+		}
+		if still && p != want {
+			r.Violation("pending-exact: %d accepted tasks not started and %d producers blocked in PushTask (not accepted): PendingTask=%d, bound %d", want, n, p, want)
+			break
+		}
+		time.Sleep(100 * time.Microsecond)
+	}
+	en.Shutdown(r, false)
+}
+
+// ---------------------------------------------------------------- C08: the concurrency bound after panics
+
+// BoundAfterPanics: every worker recovers `rounds` panics, then more than laneSize never-ending tasks
+// are pushed: exactly laneSize of them may be inside Start() at once (monitor), no matter how long we watch.
+func (en *Engine) BoundAfterPanics(n, q, rounds int) {
+	const fam = "boundafterpanic"
+	name := sname(fam, n, q, rounds)
+	if en.Skip(fam, name) {
+		return
+	}
+	r := en.New(fam, name, n, q)
+	defer en.Finish(fam, r)
+	r.Start(longTimeout)
+	for round := 0; round < rounds; round++ {
+		shared := make(chan struct{})
+		var ts []*Task
+		for i := 0; i < n; i++ {
+			t := r.NewPanicTask((round+i)%6, true)
+			t.gate = shared
+			ts = append(ts, t)
+			r.Push(t, i)
+		}
+		ok := WaitUntil(LiveBound, func() bool {
+			for _, t := range ts {
+				if !r.Started(t) {
+					return false
+				}
+			}
+			return true
+		})
+		close(shared)
+		for _, t := range ts {
+			t.once.Do(func() {})
+		}
+		if !ok {
+			r.Violation("panic-contained: the %d tasks of round %d did not all start within %v", n, round+1, LiveBound)
+			en.Shutdown(r, false)
+			return
+		}
+		WaitUntil(LiveBound, func() bool {
+			for _, t := range ts {
+				if !r.Finished(t) {
+					return false
+				}
+			}
+			return true
+		})
+	}
+	// more never-ending tasks than workers (as many as fit without blocking a producer)
+	total := n + n*(q+1)
+	if total > n+4 {
+		total = n + 4
+	}
+	var long []*Task
+	for i := 0; i < total; i++ {
+		t := r.NewTask(true, 0, false)
+		long = append(long, t)
+		r.PushAsync(t, i%n)
+	}
+	WaitUntil(LiveBound, func() bool { return r.curRunning() >= n })
+	// watch: a lane with extra workers would start more
+	WaitUntil(20*time.Millisecond, func() bool { return r.curRunning() > n })
+	if c := r.curRunning(); c < n {
+		r.Violation("panic-contained: only %d of %d workers serve after %d rounds of panics", c, n, rounds)
+	}
+	en.Shutdown(r, false)
 }
